@@ -261,6 +261,31 @@ def _fold_lookup(node):
             g = None
         if g is not None and en.prog.is_respelling(g):
             return node.args[0]
+    ctor = node.func if isinstance(node, ast.Call) else None
+    if isinstance(ctor, ast.Name) and ctor.id.startswith('SYM_v') and \
+            en is not None and isinstance(en.defs.get(ctor.id), ast.Call):
+        ctor = en.defs[ctor.id]
+    if isinstance(node, ast.Call) and isinstance(ctor, ast.Call) and \
+            not ctor.args and not ctor.keywords and \
+            en is not None and en._stack:
+        # C()(...) where C.__call__ answers with a constant whatever it is
+        # given (a null object built right there)
+        try:
+            q = en.prog.resolve(en._stack[-1].module, ctor.func)
+            m = en.prog.find_method(q, '__call__') if q in \
+                en.prog.classes else None
+            init = en.prog.find_method(q, '__init__') if q in \
+                en.prog.classes else None
+        except Exception:
+            m = init = None
+        if m is not None and (init is None or len(init.params) <= 1):
+            body = [b for b in m.node.body if not (
+                isinstance(b, ast.Expr) and isinstance(b.value,
+                                                       ast.Constant))]
+            if len(body) == 1 and isinstance(body[0], ast.Return) and \
+                    isinstance(body[0].value, ast.Constant):
+                return ast.copy_location(ast.Constant(
+                    value=body[0].value.value), node)
     if isinstance(node, ast.Call) and len(node.args) == 2 and \
             not node.keywords and U_(node.func) in (
                 'operator.getitem', 'getitem') and (
@@ -2668,6 +2693,34 @@ class Enumerator:
                 if des is not None:
                     yield from self.block(des, st, handlers)
                     return
+            # L.extend(E for v in it if c) as a statement, when
+            # comprehensions are read: the loop of appends it abbreviates
+            mx_ = method_call(node.value) if isinstance(
+                node.value, ast.Call) else None
+            if self.comps and mx_ and mx_[1] == 'extend' and len(
+                    node.value.args) == 1 and not node.value.keywords and \
+                    isinstance(node.value.args[0], (
+                        ast.GeneratorExp, ast.ListComp)) and len(
+                            node.value.args[0].generators) == 1 and \
+                    not node.value.args[0].generators[0].is_async and \
+                    isinstance(mx_[0], ast.Name):
+                comp = node.value.args[0]
+                g = comp.generators[0]
+                body = [ast.Expr(value=ast.Call(func=ast.Attribute(
+                    value=mx_[0], attr='append', ctx=ast.Load()),
+                    args=[comp.elt], keywords=[]))]
+                for c in reversed(g.ifs):
+                    body = [ast.If(test=c, body=body, orelse=[])]
+                loop = ast.For(target=g.target, iter=g.iter, body=body,
+                               orelse=[])
+                for b in ast.walk(loop):
+                    if isinstance(b, (ast.stmt, ast.expr)) and not hasattr(
+                            b, 'lineno'):
+                        b.lineno = b.end_lineno = line
+                        b.col_offset = b.end_col_offset = 0
+                ast.copy_location(loop, node)
+                yield from self.stmt(loop, st, handlers)
+                return
             # d.setdefault(k, v) as a statement: `if k not in d: d[k] = v`
             # (v is a plain value: nothing is evaluated for it)
             mc_ = method_call(node.value) if isinstance(
@@ -3399,6 +3452,36 @@ class Enumerator:
                 return True
         return False
 
+    def _cannot_raise(self, body, st):
+        """The try body, as it reads on this path, does nothing that is taken
+        to raise: after substitution its only calls print or log, and it
+        neither raises, subscripts nor reads attributes of anything but
+        modules (a body whose one interesting call was folded to a
+        constant)."""
+        for sub in body:
+            for n in ast.walk(sub):
+                if isinstance(n, (ast.Raise, ast.Assert, ast.Subscript,
+                                  ast.Await, ast.Yield, ast.YieldFrom,
+                                  ast.For, ast.While, ast.With, ast.Try,
+                                  ast.Import, ast.ImportFrom, ast.Delete)):
+                    return False
+        saw_call = False
+        for sub in body:
+            for c in ast.walk(sub):
+                if isinstance(c, ast.Call):
+                    saw_call = True
+                    cs = subst(c, st.env)
+                    if not isinstance(cs, ast.Call):
+                        if isinstance(cs, ast.Constant):
+                            continue
+                        return False
+                    fn = U_(cs.func)
+                    if fn == 'print' or fn.split('.')[0] in ('LOG', 'logging',
+                                                             'warnings'):
+                        continue
+                    return False
+        return saw_call
+
     def _try(self, node, st, handlers):
         def finish(s, status):
             """Run the finally block after `status`."""
@@ -3442,7 +3525,7 @@ class Enumerator:
             else:
                 yield from finish(s, status)
         # one exceptional path per handler, entered from the try entry state
-        if self.handler_paths:
+        if self.handler_paths and not self._cannot_raise(node.body, st):
             assigned = self._assigned_names(node.body)
             # a name whose only binding is the plain assignment that ends
             # the try body keeps its old value when an exception arrives:
